@@ -102,7 +102,7 @@ def prepare(tier):
 
 
 def units(tier):
-    return gen.chunks(len(_rules(tier)), 24) + [["CONF", 0], ["CONF", 1]]
+    return gen.chunks(len(_rules(tier)), 10) + [["CONF", 0], ["CONF", 1]]
 
 
 def run_unit(unit, tier):
